@@ -214,3 +214,80 @@ Corollary soi_bound_integral thr2 a b T : 0 <= thr2 -> 0 <= T ->
     Rabs (fst (soi_core RO thr2 a b (a + b) T) - fst z) <= soi_eps thr2 T /\
     Rabs (snd (soi_core RO thr2 a b (a + b) T) - snd z) <= soi_eps thr2 T.
 Proof. intros H0 HT. exists (I2x a b T). split. apply soi_cases. apply soi_bound; auto. Qed.
+
+(* ------------------------------------------------------------------ amplification of evaluation errors
+   The three case formulas as functions of the already evaluated buffers
+     f1 = frc(dEE), f2 = frc(dEdE), ex = dt e^{i dEE dt}   (all of size ~T).
+   If these are known to within u*T (componentwise) the case value moves by at most 2 u T^2 / thr2, because
+   the code only divides by denominators with |x T| > thr2.  Together with soi_bound this is the error budget
+        thr2 T^2 (1/2 + thr2/4)  +  2 u T^2 / thr2
+   of one entry of the segment integral (u: accuracy of sin/cos/division in units of T, not proved here).     *)
+Definition case1_of (f1 f2 : Cx) (b : R) : Cx := cdivr RO (csub' f1 f2) b.
+Definition case2_of (f1 ex : Cx) (a : R) : Cx := cdivr RO (fst f1 + snd ex, snd f1 - fst ex) a.
+
+Lemma soi_cases_of_buffers (m1 m2 : bool) a b ab T :
+  soi_cases_of RO m1 m2 a b ab T =
+  cite RO m1 (case1_of (frc RO a T) (frc RO ab T) b)
+       (cite RO m2 (case2_of (frc RO a T) (cscal RO T (cexp' (a * T))) a) (T * T / 2, 0)).
+Proof.
+  unfold soi_cases_of, case1_of, case2_of. rewrite em1_val.
+  destruct m1; [reflexivity|]. destruct m2; unfold cite; simpl; apply c_eq; simpl; unfold o2, Rdiv; simpl; try ring; replace (1 + 1) with 2 by ring; ring.
+Qed.
+
+Lemma inv_small thr2 x T : 0 < thr2 -> 0 <= T -> thr2 < Rabs (x * T) -> / Rabs x <= T / thr2.
+Proof.
+  intros H0 HT H.
+  assert (Hx : x <> 0) by (intros ->; rewrite Rmult_0_l, Rabs_R0 in H; lra).
+  assert (Hp : 0 < Rabs x) by (apply Rabs_pos_lt; auto).
+  rewrite Rabs_mult, (Rabs_right T) in H by lra.
+  assert (HT' : 0 < T) by nra.
+  assert (Hq : thr2 / T <= Rabs x).
+  { left. apply Rmult_lt_reg_r with T; auto. unfold Rdiv. rewrite Rmult_assoc, Rinv_l by lra. lra. }
+  assert (Hpos : 0 < thr2 / T) by (apply Rdiv_lt_0_compat; auto).
+  apply Rle_trans with (/ (thr2 / T)). apply Rinv_le_contravar; auto.
+  right. field. split; lra.
+Qed.
+
+Theorem case1_amplification thr2 u T b (f1 f2 f1' f2' : Cx) : 0 < thr2 -> 0 <= T -> 0 <= u -> thr2 < Rabs (b * T) ->
+  Rabs (fst f1' - fst f1) <= u * T -> Rabs (snd f1' - snd f1) <= u * T ->
+  Rabs (fst f2' - fst f2) <= u * T -> Rabs (snd f2' - snd f2) <= u * T ->
+  Rabs (fst (case1_of f1' f2' b) - fst (case1_of f1 f2 b)) <= 2 * u * (T * T) / thr2 /\
+  Rabs (snd (case1_of f1' f2' b) - snd (case1_of f1 f2 b)) <= 2 * u * (T * T) / thr2.
+Proof.
+  intros H0 HT Hu Hb A1 A2 B1 B2. pose proof (inv_small thr2 b T H0 HT Hb) as Hi.
+  assert (Hinv : 0 <= / Rabs b) by (left; apply Rinv_0_lt_compat; destruct (Req_dec b 0) as [->|]; [rewrite Rmult_0_l, Rabs_R0 in Hb; lra | apply Rabs_pos_lt; auto]).
+  assert (K : forall x y x' y', Rabs (x' - x) <= u * T -> Rabs (y' - y) <= u * T ->
+            Rabs ((x' - y') / b - (x - y) / b) <= 2 * u * (T * T) / thr2).
+  { intros x y x' y' Hx Hy. replace ((x' - y') / b - (x - y) / b) with (((x' - x) - (y' - y)) / b) by (unfold Rdiv; ring).
+    unfold Rdiv. rewrite Rabs_mult, Rabs_inv.
+    apply Rle_trans with ((u * T + u * T) * (T / thr2)).
+    apply Rmult_le_compat; auto. apply Rabs_pos.
+    eapply Rle_trans. apply Rabs_triang. rewrite Rabs_Ropp. lra.
+    right. field. lra. }
+  unfold case1_of, cdivr, csub; simpl. split; apply K; auto.
+Qed.
+
+Theorem case2_amplification thr2 u T a (f1 ex f1' ex' : Cx) : 0 < thr2 -> 0 <= T -> 0 <= u -> thr2 < Rabs (a * T) ->
+  Rabs (fst f1' - fst f1) <= u * T -> Rabs (snd f1' - snd f1) <= u * T ->
+  Rabs (fst ex' - fst ex) <= u * T -> Rabs (snd ex' - snd ex) <= u * T ->
+  Rabs (fst (case2_of f1' ex' a) - fst (case2_of f1 ex a)) <= 2 * u * (T * T) / thr2 /\
+  Rabs (snd (case2_of f1' ex' a) - snd (case2_of f1 ex a)) <= 2 * u * (T * T) / thr2.
+Proof.
+  intros H0 HT Hu Ha A1 A2 B1 B2. pose proof (inv_small thr2 a T H0 HT Ha) as Hi.
+  assert (Hinv : 0 <= / Rabs a) by (left; apply Rinv_0_lt_compat; destruct (Req_dec a 0) as [->|]; [rewrite Rmult_0_l, Rabs_R0 in Ha; lra | apply Rabs_pos_lt; auto]).
+  assert (K : forall x y x' y' (sg : R), (sg = 1 \/ sg = -1) -> Rabs (x' - x) <= u * T -> Rabs (y' - y) <= u * T ->
+            Rabs ((x' + sg * y') / a - (x + sg * y) / a) <= 2 * u * (T * T) / thr2).
+  { intros x y x' y' sg Hsg Hx Hy.
+    replace ((x' + sg * y') / a - (x + sg * y) / a) with (((x' - x) + sg * (y' - y)) / a) by (unfold Rdiv; ring).
+    unfold Rdiv. rewrite Rabs_mult, Rabs_inv.
+    apply Rle_trans with ((u * T + u * T) * (T / thr2)).
+    apply Rmult_le_compat; auto. apply Rabs_pos.
+    eapply Rle_trans. apply Rabs_triang. rewrite Rabs_mult.
+    assert (Rabs sg = 1) by (destruct Hsg as [->| ->]; [apply Rabs_R1 | rewrite Rabs_left; lra]). rewrite H. lra.
+    right. field. lra. }
+  unfold case2_of, cdivr; simpl. split.
+  - replace (fst f1' + snd ex') with (fst f1' + 1 * snd ex') by ring. replace (fst f1 + snd ex) with (fst f1 + 1 * snd ex) by ring.
+    apply K; auto.
+  - replace (snd f1' - fst ex') with (snd f1' + -1 * fst ex') by ring. replace (snd f1 - fst ex) with (snd f1 + -1 * fst ex) by ring.
+    apply K; auto.
+Qed.
